@@ -106,7 +106,11 @@ def tracked_add_rules(ctx, R2="C15.R2", R3="C15.R3") -> None:
     if tw is not None:
         pname = tw.args.args[1].arg
         try:
-            t, _ = nf.method_nf(td, "_to_wires")
+            # the value of the single returning path of the canonical body (helpers seen through, idioms normalised)
+            rets = [q for q in ctx.paths(f"{TD}._to_wires") if q.kind == "return"]
+            if len(rets) != 1 or rets[0].tests:
+                raise Opaque("more than one way to return")
+            t, _ = nf.expr_nf(rets[0].value_text(), td, extra={pname: sym(pname)})
         except Opaque as e:
             ctx.broken(f"TrackedDfg._to_wires not normalisable: {e}")
         want, _ = nf.expr_nf(f"(self.tracked_wire(inc) if isinstance(inc, int) else inc for inc in {pname})", td, extra={pname: sym(pname)})
@@ -160,6 +164,8 @@ def tracked_index_rules(ctx) -> None:
     # ---- who writes `tracked`, and how (on canonical bodies, so helpers extracted from a method are seen in it)
     writers = {}
     for name in td.methods:
+        if ctx.canon.unknown_helper(td, name):
+            continue            # seen through at its call sites
         fn = ctx.cfn(f"{TD}.{name}")
         for n in ast.walk(fn):
             w = None
